@@ -24,10 +24,14 @@ PROPS = {
                  'term-level matching is judged by the C02 oracle (Query.sat uses isSubseq / occurrences, not the matchers)'],
         level_text='Lean 4 theorem for every pattern, line and match-function behaviour: an extended pattern matches iff every '
                    'group has a term matching with the right polarity (AND of OR with negation), given the match functions '
-                   'return. parseTerms / BuildPattern / MatchItem and whole filter-mode runs (in-process fzf.Run) are compared '
+                   'return; for every well-formed query (groups of |-separated terms of all six kinds, negated or not, texts '
+                   'with escaped spaces), in fuzzy and --exact mode, under every case mode and with or without --literal, '
+                   'parseTerms(render q) is exactly the documented term list (kind, polarity, per-term smart-case, per-term '
+                   'normalisation), under a hypothesis on the Unicode tables that is checked on the dumped table in every '
+                   'run. parseTerms / BuildPattern / MatchItem and whole filter-mode runs (in-process fzf.Run) are compared '
                    'with the model; the declarative Query.sat over the generated AST decides which lines must be printed.',
-        level_note='Partial: parseTerms(render q) = compile q and term-level soundness/completeness are checked per case, not yet '
-                   'proved for all inputs. Trusted: Lean kernel, standard axioms, harness, Go unicode tables.',
+        level_note='Partial: term-level soundness/completeness of the six match functions is proved for fuzzy (V1), prefix, '
+                   'suffix and equal terms under C02 and checked per case for exact / boundary / V2. Trusted: Lean kernel, standard axioms, harness, Go unicode tables.',
         technique='Lean 4 proof (AND/OR/negation semantics by induction over term sets) + model/implementation correspondence with a declarative query oracle',
     ),
     'C04': dict(
